@@ -423,7 +423,7 @@ func runOne(s *server, h hdr, payload []byte, segs [][]byte, stallAfter int) res
 }
 
 func main() {
-	run := lib.Start("C08", "reference encoder for PROXY protocol v1 (TCP4/TCP6 shortest..longest address texts, ports 0..65535, UNKNOWN with/without trailing text up to 107 bytes) and v2 (PROXY over TCP/UDP x IPv4/IPv6 with TLV tails up to ~2000 bytes, LOCAL with/without body, every other command x family byte as 'unusual', 14 malformed classes incl. truncation + FIN at every offset) x PRNG segmentation of header+payload (every 2-split in thorough) x offset-stream payloads; each accepted connection is used by four goroutines (Read, Write, RemoteAddr, LocalAddr) under the race detector; stalled headers; the same through the real CLI binary with an origin observing X-Forwarded-For; distinct = (header kind, segmentation class, payload size class)")
+	run := lib.Start("C08", "reference encoder for PROXY protocol v1 (TCP4/TCP6 shortest..longest address texts, ports 0..65535, UNKNOWN with/without trailing text up to 107 bytes) and v2 (PROXY over TCP/UDP x IPv4/IPv6 with TLV tails up to ~2000 bytes, LOCAL with/without body, every other command x family byte as 'unusual', 14 malformed classes incl. truncation + FIN at every offset) x PRNG segmentation of header+payload (every 2-split in thorough) x offset-stream payloads; each accepted connection is used by four goroutines (Read, Write, RemoteAddr, LocalAddr) under the race detector; stalled headers; the same through the real CLI binary with an origin observing X-Forwarded-For; header failures (malformed, wrong family, silent, partial) on a listener with --write-limit 1K while another connection is being throttled; distinct = (header kind, segmentation class, payload size class)")
 	hb := lib.StartHeartbeat()
 	root := run.RNG()
 	s := newServer()
